@@ -232,6 +232,7 @@ fn replicated(rt: &tokio::runtime::Runtime, c: &RCase) -> Outcome {
         let mut applied = 0;
         let mut renames = 0;
         for (i, s) in c.steps.iter().enumerate() {
+            gi::untie_clocks(&mut cl);
             let r = cl.step(s).await;
             let node = match (s, &r) {
                 (Step::Do { r: n, op }, StepResult::Op(Ok(()))) => {
